@@ -4,6 +4,7 @@
   check.py <C10|C01|C17> [--tier quick|thorough] [--runs N] [--workers W]
   check.py <id> --replay <file>
   check.py selftest-determinism [--props C10,C01,C17] [--seeds N]
+  check.py selftest-probes [--props ...]
 
 Exit codes: 0 property held on everything explored (KNOWN-FINDING lines may be printed),
 1 violation (a line ``VIOLATION property=<id> replay=<path>`` is printed), 2 harness error.
@@ -42,6 +43,8 @@ def main():
 
     if args.target == "selftest-determinism":
         sys.exit(cli.selftest_determinism(args, seed))
+    if args.target == "selftest-probes":
+        sys.exit(cli.selftest_probes(args, seed))
     if args.replay:
         sys.exit(cli.do_replay(args.target, args.replay))
     sys.exit(cli.do_check(args.target, args.tier, seed, args))
